@@ -67,7 +67,8 @@ def messageParseP (d : Handle) (dir name : Bytes) (content : Bytes) : Prog (Opti
         match flagsParse n with
         | some mf =>
           let m := parseMessage content
-          pure (some { name := n, path := p, fd := some fd, msg := m, parts := (getAttachments m).getD [], flags := mf })
+          pure (some { name := n, path := p, fd := some fd, msg := m, parts := (getAttachments m).getD [], flags := mf,
+                       loc := some (dir, name), content := content })
         | none => do
           let _ ← call (.close fd)
           pure none
@@ -76,14 +77,12 @@ def messageParseP (d : Handle) (dir name : Bytes) (content : Bytes) : Prog (Opti
         pure none
   | _ => pure none
 
-/-- What the main-loop state learns from executing the list: where the message is now. -/
-def afterExec (files : Files) (dir0 name0 : Bytes) (ms : MsgSt) (content : Bytes) (discarded : Bool) : Files :=
+/-- What the main-loop state learns from executing the list: where the message's file is now. -/
+def afterExec (files : Files) (dir0 name0 : Bytes) (ms : MsgSt) : Files :=
   let fs := files.del dir0 name0
-  if discarded then fs
-  else
-    -- directory of the message's current path
-    let dir := (ms.path.take (ms.path.length - ms.name.length - 1))
-    fs.put dir ms.name content
+  match ms.loc with
+  | none => fs
+  | some (dir, name) => fs.put dir name ms.content
 
 /-- The `-> destination` lines of `matches_inspect` (the explanation lines are in Model/Inspect). -/
 def inspectLines (env : PEnv) (ml : MatchList) (path : Bytes) : List Bytes :=
@@ -127,12 +126,8 @@ def processMessage (env : PEnv) (orc : EvalOracles) (expr : Expr) (md : Maildir)
             else do
               let (xs, e) ← matchesExec env ml { src := md, chsrc := false, ms := ms1, reject := false }
               free xs.ms
-              let discarded := ml.any (·.ty == .discard) && !e
-              let written := (messageWrite ms1.msg).1
-              let rewritten := ml.any fun m => m.ty == .label || m.ty == .addHeader
-              let content' := if rewritten then written else content
               pure ({ st1 with error := st1.error || e, reject := st1.reject || xs.reject,
-                               files := afterExec st1.files md.path name xs.ms content' discarded }, md)
+                               files := afterExec st1.files md.path name xs.ms }, md)
 
 /-- `maildir_read` + `maildir_next`: the walk over `new` then `cur` (or the spool). -/
 def walk (env : PEnv) (orc : EvalOracles) (expr : Expr) : Nat → Maildir → MainSt → Prog (MainSt × Maildir)
